@@ -104,20 +104,31 @@ def extract_one(kind, path, ty):
             f["writeErrRemoves"] = False
     # --- reader ------------------------------------------------------------------------------------
     loop = fn_body(src, "spawn_response_loop")
-    rem = _pos(r"\.\s*remove\s*\(\s*&\s*(response\s*\.\s*header\s*\.\s*id|response_id)\s*\)", loop, f"{kind}: reader removes by response id")
+    idrx = r"\(\s*&\s*(response\s*\.\s*header\s*\.\s*id|response_id)\s*\)"
+    rem = _pos(r"\.\s*remove\s*" + idrx, loop, "reader removes by response id", required=False)
+    if rem is None:
+        # a lookup that leaves the entry in place (get / get_mut / contains_key) is recognised as such
+        rem = _pos(r"\.\s*(get|get_mut|contains_key)\s*" + idrx, loop, f"{kind}: reader looks the response id up")
+        f["matchRemoves"] = False
+    else:
+        f["matchRemoves"] = True
     nf = _pos(r"response\s*\.\s*header\s*\.\s*notify\s*!=\s*0", loop, "notify test", required=False)
     f["notifyAware"] = nf is not None and nf < rem
-    if nf is not None and not nf < rem:
-        f["notifyAware"] = False
     f["matchLine"] = _line(src, loop, rem)
-    # every fail_all_pending call in the loop is followed by `break` before the next statement group
+    # every fail_all_pending call in the loop is followed by `break` (a `continue` keeps a dead reader spinning)
     calls = [m.end() for m in re.finditer(r"fail_all_pending\s*\(", loop)]
     if not calls:
         raise ExtractError(f"{kind}: reader never calls fail_all_pending")
+    stops = True
     for c in calls:
-        tail = loop[c:c + 120]
-        if not re.match(r"[^;]*;\s*break\s*;", tail):
-            raise ExtractError(f"{kind}: fail_all_pending not followed by break")
+        tail = loop[c:c + 160]
+        if re.match(r"[^;]*;\s*break\s*;", tail):
+            continue
+        if re.match(r"[^;]*;\s*continue\s*;", tail):
+            stops = False
+            continue
+        raise ExtractError(f"{kind}: statement after fail_all_pending is neither break nor continue")
+    f["readerStops"] = stops
     # --- fail_all_pending --------------------------------------------------------------------------
     fa = fn_body(src, "fail_all_pending")
     marks = []
@@ -150,7 +161,8 @@ def render(facts):
         out.append(f"def {kind}Cfg : Cfg :=")
         out.append(f"  {{ notifyAware := {_b(f['notifyAware'])}, rejectDup := {_b(f['rejectDup'])}, regBeforeWrite := {_b(f['regBeforeWrite'])},")
         out.append(f"    failOrder := [{order}],")
-        out.append(f"    timeoutRemoves := {_b(f['timeoutRemoves'])}, cancelRemoves := {_b(f['cancelRemoves'])}, writeErrRemoves := {_b(f['writeErrRemoves'])} }}")
+        out.append(f"    timeoutRemoves := {_b(f['timeoutRemoves'])}, cancelRemoves := {_b(f['cancelRemoves'])}, writeErrRemoves := {_b(f['writeErrRemoves'])},")
+        out.append(f"    matchRemoves := {_b(f['matchRemoves'])}, readerStops := {_b(f['readerStops'])} }}")
         out.append("")
     out += ["def all : List Cfg := [blockingCfg, asyncCfg, wsCfg]", "", "end Repe.Gen.Mux", ""]
     return "\n".join(out)
